@@ -151,8 +151,31 @@ def run(ctx):
         ctx.check(ok, 'C10-saturate', 'instant += 400-year offset only when instant <= max - offset', x,
                   'the shifted-back instant is moved forward again without the test against time_point::max() - offset: the '
                   'addition overflows at the end of the range instead of saturating', construct='saturate:timelocal:add')
-    ctx.check(len(mults) >= 1 and len(adds) >= 1, 'C10-saturate', 'TimeLocal shift arithmetic found', f,
-              'found %d/%d' % (len(mults), len(adds)), construct='saturate:timelocal:count')
+    # the same saturation written as  min(instant, max - offset) + offset
+    mins = []
+    for (uu, ff) in ctx.scope(f):
+        Fx = ctx.facts(ff)
+        for x in walk(ff):
+            if x.get('kind') == 'CXXOperatorCallExpr' and callee(x) and callee(x)[0] == 'fn' and callee(x)[1].get('name') == 'operator+' \
+                    and 'time_point' in (dtype(x) or qtype(x) or '') and len(call_args(x)) == 2:
+                a0 = peel(call_args(x)[0])
+                while a0 is not None and a0.get('kind') in ('MaterializeTemporaryExpr', 'CXXConstructExpr', 'CXXBindTemporaryExpr') and len(kids(a0)) == 1:
+                    a0 = peel(kids(a0)[0])
+                if a0 is not None and a0.get('kind') == 'CallExpr' and callee(a0) and callee(a0)[0] == 'fn' and \
+                        callee(a0)[1].get('name') == 'min' and len(call_args(a0)) == 2:
+                    ok_ = Fx.ident_key(call_args(x)[1])
+                    lims = [Fx.ident_key(a_) for a_ in call_args(a0)]
+                    good = any(re.search(r'max\(\) - %s\)?$' % re.escape(ok_), l_) for l_ in lims)
+                    mins.append(x)
+                    ctx.check(good, 'C10-saturate', 'instant moved forward as min(instant, max - offset) + offset', x,
+                              'the shifted-back instant is moved forward again as min(instant, L) + offset with L = %s, which is not '
+                              'time_point::max() - offset: the sum overflows at the end of the range or saturates early' % lims,
+                              construct='saturate:timelocal:add')
+    ctx.check3(None if (len(mults) >= 1 and not adds and not mins) else (len(mults) >= 1 and len(adds) + len(mins) >= 1), 'C10-saturate',
+               'TimeLocal shift arithmetic found', f,
+               'found %d/%d' % (len(mults), len(adds) + len(mins)), construct='saturate:timelocal:count',
+               unknown_why='the way TimeLocal moves the shifted-back instant forward again was not recognised (neither += under '
+                           'a test against max - offset nor min(instant, max - offset) + offset)')
     ctx.minimum('C10-saturate', 9)
 
     # ---- C10-bounds: the per-type saturation bounds are the civil images of the two ends of the instant range
